@@ -26,6 +26,9 @@ def default_uri(c):
 
 
 class C03(Oracle):
+    # reach probes that must not be stuck at zero (else the workload is not reaching what
+    # the design says it reaches): the check then exits 2
+    required_probes = {"quick": ['clash_renamed_or_aliased', 'full_uri_compacted', 'empty_prefix_qualified_name'], "thorough": ['clash_renamed_or_aliased', 'full_uri_compacted', 'empty_prefix_qualified_name']}
     prop = "C03"
 
     def swarm(self, rng):
